@@ -246,6 +246,9 @@ func cmdCheck(args []string) int {
 			if !kindOK(o.Kind) {
 				continue
 			}
+			if r.AbstractCon && (o.Kind == "post" || o.Kind == "frame") {
+				continue // an assumed contract (abstractbody): only the safety obligations of the body are checked
+			}
 			if (o.Kind == "guard" || o.Kind == "lockorder" || o.Kind == "lockbalance") && !pc.Locks {
 				continue // lock discipline is property C16's
 			}
